@@ -357,6 +357,7 @@ class Models:
           m_call_fnlike)
         self.prefix_table.append((re.compile(r" as Fn(Once|Mut)?::call(_once|_mut)?$"), m_call_fnlike))
         self.prefix_table.append((re.compile(r" as IntoIterator::into_iter$"), m_into_iter_any))
+        self.prefix_table.append((re.compile(r" as AsRef::as_ref$"), lambda ex, st, fr, c, a, d, r: a[0]))
         # -- formatting / panics / opaque
         R(["Argument::new_display", "Argument::new_debug", "Arguments::new", "fmt::format", "format",
            "Path::display", "Path::to_path_buf", "Path::join", "PathBuf as Deref::deref", "must_use",
@@ -824,6 +825,9 @@ def m_vec_extend(ex, st, fr, c, a, d, r):
     if isinstance(dst, VVec) and isinstance(src, VVec):
         dst.elems.extend(e.clone() for e in src.elems)
         return VUnit()
+    if isinstance(dst, VVec) and isinstance(src, VOpaque):
+        dst.elems.append(VOpaque("chunk", (src.tag, src.data)))   # an opaque run of bytes
+        return VUnit()
     raise Unsupported("extend on non-sequence values")
 
 
@@ -926,6 +930,8 @@ def m_map_insert(ex, st, fr, c, a, d, r):
     old = sym_option(z3.Select(m.present, k), shape_select(m, k))
     m.present = z3.Store(m.present, k, z3.BoolVal(True))
     shape_store(m, k, a[2])
+    if m.vshape == ("sym", "H") and m.ksort == "K":
+        st.event("intent", op="insert", key=k, hash=a[2].t)
     return old
 
 
@@ -934,6 +940,8 @@ def m_map_remove(ex, st, fr, c, a, d, r):
     k = key_term(ex, st, a[1])
     old = sym_option(z3.Select(m.present, k), shape_select(m, k))
     m.present = z3.Store(m.present, k, z3.BoolVal(False))
+    if m.vshape == ("sym", "H") and m.ksort == "K":
+        st.event("intent", op="remove", key=k)
     return old
 
 
